@@ -202,7 +202,8 @@ func selectCurrentReplicaSet(daemonset *datadoghqv1alpha1.ExtendedDaemonSet, act
 	isEnded, requeueAfter = IsCanaryDeploymentEnded(daemonset.Spec.Strategy.Canary, upToDateRS, now)
 	isPaused, _ := IsCanaryDeploymentPaused(dsAnnotations, upToDateRS)
 	isValid := IsCanaryDeploymentValid(dsAnnotations, upToDateRS.GetName())
-	if isValid || (!isPaused && isEnded) {
+	isFailed := IsCanaryDeploymentFailed(upToDateRS)
+	if isValid || (!isPaused && !isFailed && isEnded) {
 		return upToDateRS, requeueAfter
 	}
 
